@@ -1,10 +1,11 @@
-(* trash-list (trashcli/list/list_trash_action.py, extractors.py); --all-users, --volumes, --trash-dirs,
+(* trash-list (trashcli/list/list_trash_action.py, extractors.py); --all-users is lo_all_users; --volumes, --trash-dirs,
    --debug-volumes, --python, --version are not modelled. *)
 From TV Require Import Prelude.Str Prelude.PosixPath Codec.TrashInfo Prog.Prog Cmd.Put Cmd.Scan.
 Open Scope N_scope.
 
 Record list_opts := mklist {
-  lo_trash_dirs : list str; lo_size : bool; lo_files : bool; lo_environ : environ; lo_uid : N }.
+  lo_trash_dirs : list str; lo_size : bool; lo_files : bool; lo_environ : environ; lo_uid : N;
+  lo_all_users : option (list (str * N)) }.   (* Some (pwd.getpwall() as (pw_dir, pw_uid))  when --all-users was given *)
 
 Definition println (t : str) : prog unit := out (t ++ [c_nl]).
 Definition printerr (exact : bool) (t : str) : prog unit := call_unit (Log WARNING exact t).
@@ -45,4 +46,4 @@ Definition list_handle (o : list_opts) (_ : unit) (ev : scan_event) : prog unit 
   end.
 
 Definition list_main (o : list_opts) : prog N :=
-  select_trash_dirs (list_handle o) (lo_trash_dirs o) (lo_environ o) (lo_uid o) tt ;;; Ret 0.
+  select_trash_dirs (list_handle o) (lo_all_users o) (lo_trash_dirs o) (lo_environ o) (lo_uid o) tt ;;; Ret 0.
